@@ -112,6 +112,10 @@ def airDkgStep (s : AirDkgSt) (toks : List String) : AirDkgSt × String :=
     match m.toNat? with
     | some mi => (pushH s mi .skip, "ok")
     | none => (s, "bad-op")
+  | ["innerfail", m, round] =>
+    match m.toNat?, parseStr round with
+    | some mi, some round => (pushH s mi (.failing round), "ok")
+    | _, _ => (s, "bad-op")
   | ["reinit", m, round, "from", sh] =>
     match m.toNat?, parseStr round, sh.toNat? with
     | some mi, some round, some si =>
